@@ -38,7 +38,7 @@ const (
 	KindTimer         // a time.AfterFunc callback in instrumented code
 )
 
-const MaxTasks = 1024
+const MaxTasks = 2048
 
 type Task struct {
 	ID         int
@@ -58,6 +58,7 @@ type Task struct {
 	Force      bool // once HoldUntil is reached, picked immediately
 	Poison     bool
 	exiting    bool
+	noYield    int // >0: scheduling points are skipped (harness observation must not add interleavings)
 	PanicVal   any
 	PanicStack string
 	StartStep  int
@@ -122,6 +123,7 @@ type Outcome struct {
 	Trace          []TraceEntry
 	TraceHash      uint64
 	Foreign        int
+	TaskOverflow   bool // more tasks than the simulator tracks: the run is abandoned
 	End            time.Time
 	ClientsEnd     time.Time
 }
@@ -256,7 +258,8 @@ func Step() int { return S.step }
 //go:norace
 func (s *Sim) newTask(kind int, parent *Task, site string) *Task {
 	if s.ntasks >= MaxTasks {
-		panic("simrt: too many tasks")
+		s.out.TaskOverflow = true
+		return nil
 	}
 	t := &Task{ID: s.ntasks, Kind: kind, Parent: -1, CreateSite: site, resume: make(chan struct{}, 1), State: StNew}
 	if parent != nil {
@@ -286,6 +289,11 @@ func (s *Sim) Spawn(tag int, f func()) int {
 		parent = s.cur
 	}
 	t := s.newTask(KindClient, parent, "client")
+	if t == nil {
+		s.mu.Unlock()
+		raceEnable()
+		return -1
+	}
 	t.Tag = tag
 	s.mu.Unlock()
 	raceEnable()
@@ -300,7 +308,7 @@ func (s *Sim) Spawn(tag int, f func()) int {
 //go:norace
 func (s *Sim) SpawnHeld(tag int, holdUntil int, force bool, f func()) int {
 	id := s.Spawn(tag, f)
-	if holdUntil > 0 {
+	if id >= 0 && holdUntil > 0 {
 		s.tasks[id].HoldUntil = holdUntil
 		s.tasks[id].Force = force
 		s.heldLive++
@@ -323,6 +331,9 @@ func Go(site string, f func()) {
 	t := s.newTask(KindGo, s.current(), site)
 	s.mu.Unlock()
 	raceEnable()
+	if t == nil {
+		return // abandoned run: the goroutine is not started
+	}
 	go s.taskMain(t, f)
 }
 
@@ -460,10 +471,30 @@ func Yield(site string) {
 		return
 	}
 	t := s.current()
-	if t == nil {
+	if t == nil || t.noYield > 0 {
 		return
 	}
 	s.park(t, site, StParked)
+}
+
+// Quiet runs f with the calling task's scheduling points disabled: everything f
+// does happens within one scheduler step. Used by harness observation code.
+//
+//go:norace
+func Quiet(f func()) {
+	s := S
+	if s == nil || !s.running {
+		f()
+		return
+	}
+	t := s.current()
+	if t == nil {
+		f()
+		return
+	}
+	t.noYield++
+	f()
+	t.noYield--
 }
 
 //go:norace
@@ -683,6 +714,11 @@ func AfterFuncTask(site string, rec *TimerRec, f func()) func() {
 	raceDisable()
 	s.mu.Lock()
 	t := s.newTask(KindTimer, s.current(), site)
+	if t == nil {
+		s.mu.Unlock()
+		raceEnable()
+		return func() {}
+	}
 	t.State = StBlocked // not runnable until the timer fires
 	s.liveTasks--       // a pending callback is not a live task until it fires
 	s.mu.Unlock()
@@ -785,7 +821,7 @@ func (s *Sim) Run() *Outcome {
 			}
 			continue
 		}
-		if s.step >= s.cfg.MaxSteps {
+		if s.step >= s.cfg.MaxSteps || s.out.TaskOverflow {
 			s.out.Livelock = true
 			break
 		}
